@@ -418,3 +418,32 @@ Theorem C02_gen_call_obj_history : forall o qs,
   obj_history o qs = (map (gen_call (o_root o)) qs, o).
 Proof. exact gen_call_obj_history. Qed.
 Print Assumptions C02_gen_call_obj_history.
+
+(* completeness of the normalisation: ONLY '', '.' and '..' are special -- any other '/'-free segments (three or more
+   dots, '.a', 'a.', '@', ...) come out of split_path_info exactly as they went in *)
+Theorem C02_gen_split_keeps_names : forall segs,
+  Forall normal_seg segs ->
+  gen_split_path_info (join [slash] segs) = segs /\ gen_split_path_info (slash :: join [slash] segs) = segs.
+Proof. exact gen_split_keeps_names_both. Qed.
+Print Assumptions C02_gen_split_keeps_names.
+
+(* the public normalisers: whenever the text decodes, the regenerated traversal_path_info / traversal_path return the
+   normalised segments the property describes (the harness judges the `tpi` / `tp` operations with these specs) *)
+Theorem C02_gen_normalisers_meet_spec : forall p l,
+  (spec_traversal_path_info p = Some l -> gen_traversal_path_info p = Ok l) /\
+  (spec_traversal_path p = Some l -> gen_traversal_path p = Ok l).
+Proof. exact gen_normalisers_meet_spec. Qed.
+Print Assumptions C02_gen_normalisers_meet_spec.
+
+(* re-entrancy: a request whose item lookups themselves run traversals / path splits / quotings (any operations,
+   chosen per resource and key) answers like the cache-free traverser, each nested operation answers like its
+   cache-free function, and every later history is unaffected *)
+Theorem C02_reentrant_request_history_free : forall inner C root q,
+  caches_ok C ->
+  let '(v, ans, C2) := reentrant_req_st inner C root q in
+  v = traverser_call root q /\
+  ans = map pure_op (inner_ops inner root
+          (match call_preamble q with Ok (_, path, _, vt, _) => vt ++ split_path_info path | _ => [] end)) /\
+  caches_ok C2 /\ forall later, run_ops_st C2 later = map pure_op later.
+Proof. exact reentrant_request_history_free. Qed.
+Print Assumptions C02_reentrant_request_history_free.
